@@ -677,6 +677,16 @@ pub fn faults(out: &mut Out, seed: u64, thorough: bool) {
                 tt[0].ptype = *first_id;
                 tt[0].chain = chain.clone();
                 run_faulty(out, &mut rng, "ext_first_late_cut", &[], &tt.iter().map(|p| p.ser()).collect::<Vec<_>>());
+                // the same train into a receiver whose only storage is exactly as long as the PDU: the extension
+                // bytes are not stored
+                if r <= 2 {
+                    let mut rx = mk_rx(out, "faults", "ext_first_tight", 2, 24, 1, std_mgr(), false);
+                    rx.note_id(4);
+                    for p in &tt {
+                        feed(out, &mut rx, &p.ser(), vec![]);
+                    }
+                    rx.ev_drain(out);
+                }
             }
         }
     }
